@@ -53,6 +53,9 @@ struct EndpointState {
 pub struct Sim {
     pub plan: Plan,
     svc: Routes,
+    /// One real HTTP/2 connection (hyper + h2 over an in-memory duplex pipe) to the real tonic
+    /// transport server, in plans tagged "conn": Pull, Acknowledge and GetSubscription travel over it.
+    conn: RefCell<Option<tonic::transport::Channel>>,
     app: Deltio,
     t0: Instant,
     events: RefCell<Vec<Event>>,
@@ -223,6 +226,7 @@ impl Sim {
         Rc::new(Sim {
             plan,
             svc,
+            conn: RefCell::new(None),
             app,
             t0: Instant::now(),
             events: RefCell::new(Vec::new()),
@@ -285,6 +289,30 @@ impl Sim {
         SubscriberClient::new(self.svc.clone())
             .max_decoding_message_size(64 * 1024 * 1024)
             .max_encoding_message_size(64 * 1024 * 1024)
+    }
+
+    fn subscriber_conn(&self) -> Option<SubscriberClient<tonic::transport::Channel>> {
+        self.conn.borrow().as_ref().map(|ch| SubscriberClient::new(ch.clone()).max_decoding_message_size(64 * 1024 * 1024).max_encoding_message_size(64 * 1024 * 1024))
+    }
+
+    /// Starts the real transport server on one in-memory connection and connects a channel to it.
+    async fn open_connection(&self) {
+        use tokio_stream::StreamExt;
+        let (cio, sio) = tokio::io::duplex(1 << 20);
+        let router = self.app.server_builder();
+        let incoming = tokio_stream::once(Ok::<_, std::io::Error>(sio)).chain(tokio_stream::pending());
+        tokio::spawn(async move {
+            let _ = router.serve_with_incoming(incoming).await;
+        });
+        let mut cio = Some(cio);
+        let channel = tonic::transport::Endpoint::from_static("http://sim.test")
+            .connect_with_connector(tower::service_fn(move |_: tonic::transport::Uri| {
+                let c = cio.take();
+                async move { c.map(hyper_util::rt::TokioIo::new).ok_or_else(|| std::io::Error::new(std::io::ErrorKind::Other, "the simulated connection was already taken")) }
+            }))
+            .await
+            .expect("in-memory connection");
+        *self.conn.borrow_mut() = Some(channel);
     }
 
     fn new_call(&self) -> u32 {
@@ -413,11 +441,17 @@ impl Sim {
         }
         let req = Req::Pull { sub: sub.to_string(), max, immediate, bg_slot };
         let invoked_us = self.now_us();
-        let out = self
-            .unary(client, req, abandon_at, cancel, PULL_HANG_LIMIT, async move { c.pull(request).await }, |r: pb::PullResponse| {
+        let out = if let Some(mut cc) = self.subscriber_conn() {
+            self.unary(client, req, abandon_at, cancel, PULL_HANG_LIMIT, async move { cc.pull(request).await }, |r: pb::PullResponse| {
                 Resp::Pulled(r.received_messages.iter().map(recv_of).collect())
             })
-            .await;
+            .await
+        } else {
+            self.unary(client, req, abandon_at, cancel, PULL_HANG_LIMIT, async move { c.pull(request).await }, |r: pb::PullResponse| {
+                Resp::Pulled(r.received_messages.iter().map(recv_of).collect())
+            })
+            .await
+        };
         if let Outcome::Ok(Resp::Pulled(recvs)) = &out {
             self.note_received_since(client, sub, recvs, Some(invoked_us));
         }
@@ -427,6 +461,9 @@ impl Sim {
     pub async fn ack(&self, client: u32, sub: &str, ack_ids: Vec<String>, abandon_at: u32, cancel: Option<CancelHandle>) -> Outcome {
         let mut c = self.subscriber();
         let request = pb::AcknowledgeRequest { subscription: sub.to_string(), ack_ids: ack_ids.clone() };
+        if let Some(mut cc) = self.subscriber_conn() {
+            return self.unary(client, Req::Ack { sub: sub.to_string(), ack_ids }, abandon_at, cancel, HANG_LIMIT, async move { cc.acknowledge(request).await }, |_: ()| Resp::Empty).await;
+        }
         self.unary(
             client,
             Req::Ack { sub: sub.to_string(), ack_ids },
@@ -894,7 +931,11 @@ impl Sim {
             Op::GetSub { sub } => {
                 let mut c = self.subscriber();
                 let request = pb::GetSubscriptionRequest { subscription: sub.clone() };
-                self.unary(client, Req::GetSub { sub: sub.clone() }, ab, timed.clone(), HANG_LIMIT, async move { c.get_subscription(request).await }, |s: pb::Subscription| Resp::Sub(sub_view(&s))).await;
+                if let Some(mut cc) = self.subscriber_conn() {
+                    self.unary(client, Req::GetSub { sub: sub.clone() }, ab, timed.clone(), HANG_LIMIT, async move { cc.get_subscription(request).await }, |s: pb::Subscription| Resp::Sub(sub_view(&s))).await;
+                } else {
+                    self.unary(client, Req::GetSub { sub: sub.clone() }, ab, timed.clone(), HANG_LIMIT, async move { c.get_subscription(request).await }, |s: pb::Subscription| Resp::Sub(sub_view(&s))).await;
+                }
             }
             Op::ListPage { kind, parent, page_size, token } => {
                 self.list_page(client, kind, parent, *page_size, token, true).await;
@@ -1190,6 +1231,9 @@ impl Sim {
         }
         if plan.knobs.pre_advance_us > 0 {
             tokio::time::sleep(Duration::from_micros(plan.knobs.pre_advance_us)).await;
+        }
+        if plan.has_tag("conn") {
+            self.open_connection().await;
         }
         for (i, phase) in plan.phases.iter().enumerate() {
             let phase_no = i as u32;
